@@ -6,7 +6,8 @@ ID, k, what, needs = sys.argv[1:5]
 demodir = sys.argv[5] if len(sys.argv) > 5 else "crates/typstyle-core/tests"
 pkg = "typstyle" if "crates/typstyle/" in demodir + "/" else ("typstyle-tests" if demodir.startswith("tests") else "typstyle-core")
 src = f"/tmp/seed-{ID}-out/change-{k}"
-dst = os.path.join(os.path.dirname(os.path.dirname(os.path.abspath(__file__))), "seeded", f"{ID}-{k}")
+newk = os.environ.get("NEWK", k)
+dst = os.path.join(os.path.dirname(os.path.dirname(os.path.abspath(__file__))), "seeded", f"{ID}-{newk}")
 os.makedirs(dst, exist_ok=True)
 demos = []
 for f in glob.glob(src + "/*"):
@@ -18,7 +19,7 @@ for f in glob.glob(src + "/*"):
         demos.append(b)
 meta = {
     "property": ID,
-    "origin": f"sub-agent seed-{ID} (given only the property text and a scratch worktree of /repo)",
+    "origin": f"sub-agent seed-{ID}" + (f" round 3, its change {k}" if newk != k else "") + f" (given only the property text and a scratch worktree of /repo)",
     "what": what,
     "needs": needs,
     "confirmed": f"tools/confirm_seed.sh {ID} {k} seed_demo_{k}.rs {demodir} -p {pkg} --test seed_demo_{k}: patch applies; existing suite 1923 passed / 14 e2e failed (= baseline); demo fails with the change and passes without it",
